@@ -6,3 +6,5 @@ def extract_all():
     claw.extract()
     from . import gen
     gen.extract()
+    from . import pyc
+    pyc.extract()
